@@ -149,7 +149,7 @@ static void t_wc1(wchar_t wc, size_t dmax, int dnull, int which) {
     sprintf(cb, "%s,%s", valid ? "valid" : "invalid-char", dnull ? "query" : !valid ? "-" : need + 1 <= dmax ? "fits" : "need>=dmax");
     if (dnull) return;
     if (!valid) { if (rc == 0) report(fn, "invalid-character-accepted", cb, cs); else if (dest[0] != 0) report(fn, "dest-not-cleared-on-invalid-character", cb, cs); return; }
-    if (wc == 0) return;
+    if (wc == 0 || need == 0) return;      /* an empty conversion (the terminator; characters glibc's ASCII converter silently drops, U+E0000..E007F) is not judged */
     if (need + 1 <= dmax) {
         if (rc != 0) { report(fn, "valid-conversion-failed", cb, cs); return; }
         if (ret != need) { report(fn, "wrong-count", cb, cs); return; }
